@@ -3,7 +3,7 @@ CONSTANTS
   Threads = {"t0", "t1", "t2"}
   Main = "t0"
   Mgrs <- MCMgrs
-  Names <- MCNames3
+  Names <- MCNames3alt
   Default <- MCDefault
   BadNames <- MCBad
   MaxDepth = 6
